@@ -1028,7 +1028,10 @@ class FileSet:
         if periods is None or not periods:
             self._exclude_times = None
         else:
-            self._exclude_times = IntervalTree(periods)
+            self._exclude_times = IntervalTree([
+                [to_datetime(start), to_datetime(end)]
+                for start, end in periods
+            ])
 
     def exclude_files(self, filenames):
         self._exclude_files = set(filenames)
